@@ -154,7 +154,11 @@ class P(Prop):
                 "_dtw (distance matrix, first row/column, forward step, predecessor encoding, backward walk), _fdtw + _update_node "
                 "(priority_dict.pop_smallest as 'least (priority, key)'), _fillAF_dtw (pair, diff, ex, ey, nb_links, score), "
                 "_dtw_comparison / _fdtw_comparison")
-    rule = ""
+    rule = ("exhaustive: all ordered pairs of small tracks on the lattices {0,1}^2 (dim 2), {0,1,2} (dim 1) and {0,1,2}^2 (dim 2) "
+            "(sizes per tier in exhaustive_scopes), each with p = 1, 2, inf, the swapped call and the FDTW score; random: sizes 1..8 (10% up to 12), "
+            "integer / half-integer lattices, axis-aligned integer tracks (exact ties in every dim) and general floats, dim 1/2/3, modes DTW/FDTW/FRECHET, "
+            "one case in ten through compare(). non-trivial = both tracks have at least 2 observations (a three-way minimum and a back-pointer choice exist); "
+            "the input histogram counts the cases where two least predecessors tie")
     trusted = ["priority_dict (heapq with lazy deletion) is modelled by its contract: pop_smallest returns an entry with the least (priority, key)",
                "numpy float64 `**` and Python float `**` are modelled by `*` for p = 2 (compared with relative tolerance 1e-9)"]
 
@@ -281,6 +285,11 @@ class P(Prop):
         return len(pts(case["a"])) >= 2 and len(pts(case["b"])) >= 2
 
     # ---------------------------------------------------------------- implementation
+    @staticmethod
+    def parg(case):
+        """the exponent handed to a FRECHET call (which must not use it)"""
+        return case.get("parg") or ("1" if (len(pts(case["a"])) + len(pts(case["b"]))) % 2 else "2")
+
     def out_of(self, m):
         return {"score": float(m.score), "pairs": [[int(i) for i in l] for l in m["pair"]], "nb_links": int(m.nb_links),
                 "diff": [float(v) for v in m["diff"]], "ex": [float(v) for v in m["ex"]], "ey": [float(v) for v in m["ey"]]}
@@ -290,11 +299,14 @@ class P(Prop):
         t1, t2 = self.mk(case["a"]), self.mk(case["b"])
         dim, mode = case["dim"], case["mode"]
         if case["kind"] == "cmp":
-            return {"value": float(C.compare(t1, t2, mode=self.CM[mode], p=PVAL[case["p"]], dim=dim, verbose=False))}
+            pa = PVAL[self.parg(case)] if mode == "frechet" else PVAL[case["p"]]
+            return {"value": float(C.compare(t1, t2, mode=self.CM[mode], p=pa, dim=dim, verbose=False))}
         res = {}
         for p in case["ps"]:
-            o = self.out_of(C.match(t1, t2, mode=self.MM[mode], p=PVAL[p], dim=dim, verbose=False))
-            o["score_swapped"] = float(C.match(t2, t1, mode=self.MM[mode], p=PVAL[p], dim=dim, verbose=False).score)
+            # FRECHET must ignore the exponent it is given: it is called with p = 1 or 2 (`parg`), never with inf
+            pa = PVAL[self.parg(case)] if mode == "frechet" else PVAL[p]
+            o = self.out_of(C.match(t1, t2, mode=self.MM[mode], p=pa, dim=dim, verbose=False))
+            o["score_swapped"] = float(C.match(t2, t1, mode=self.MM[mode], p=pa, dim=dim, verbose=False).score)
             if mode == "dtw":
                 o["score_fast"] = float(C.match(t1, t2, mode=C.MODE_MATCHING_FDTW, p=PVAL[p], dim=dim, verbose=False).score)
             if mode == "frechet":
@@ -312,11 +324,12 @@ class P(Prop):
         a, b = self.tok(case["a"]), self.tok(case["b"])
         dim, mode = case["dim"], case["mode"]
         if case["kind"] == "cmp":
-            return ["C18.compare %s %s %d %s %s" % (mode, case["p"], dim, a, b)]
+            return ["C18.compare %s %s %d %s %s" % (mode, self.parg(case) if mode == "frechet" else case["p"], dim, a, b)]
         out = []
         for p in case["ps"]:
-            out.append("C18.match %s %s %d %s %s" % (mode, p, dim, a, b))
-            out.append("C18.match %s %s %d %s %s" % (mode, p, dim, b, a))
+            pa = self.parg(case) if mode == "frechet" else p
+            out.append("C18.match %s %s %d %s %s" % (mode, pa, dim, a, b))
+            out.append("C18.match %s %s %d %s %s" % (mode, pa, dim, b, a))
             if mode == "dtw":
                 out.append("C18.match fdtw %s %d %s %s" % (p, dim, a, b))
             if mode == "frechet":
@@ -447,6 +460,10 @@ class P(Prop):
                         t2 = [list(q) for q in t]
                         t2[k][c] = 0.0 if abs(t[k][c]) <= 1 else float(int(t[k][c] / 2))
                         yield dict(case, **{"a": a, "b": b, which: t2})
+
+    def search_cases(self, rng):
+        # the quick scopes again (other random draws) rather than the 290 k cases of the thorough tier
+        return self.cases(rng, "quick")
 
     def mutate(self, case, rng):
         a, b = pts(case["a"]), pts(case["b"])
